@@ -1,0 +1,101 @@
+//go:build verif
+
+package common
+
+// Named crash points for the verification harness (/verif, property C06). Built only with -tags verif.
+//
+//	VERIF_CRASH_LOG=<file>            every crash point passed appends one line "<name> <arg> <arg> ...\n"
+//	                                  (one write(2) on an O_APPEND descriptor, so it survives a SIGKILL)
+//	VERIF_CRASH=<name>:<k>[:<ms>]     at the k-th hit of <name> the calling goroutine stalls for <ms>
+//	                                  milliseconds (other goroutines keep running), logs "KILL <name> <k>"
+//	                                  and the process SIGKILLs itself
+//
+// Without either variable a crash point is a single atomic load.
+
+import (
+	"os"
+	"strconv"
+	"strings"
+	"sync"
+	"sync/atomic"
+	"syscall"
+	"time"
+)
+
+var verifCrash struct {
+	once    sync.Once
+	enabled int32
+	mu      sync.Mutex
+	logf    *os.File
+	name    string
+	k       int64
+	delay   time.Duration
+	hits    map[string]int64
+}
+
+func verifCrashInit() {
+	c := &verifCrash
+	c.hits = make(map[string]int64)
+	if p := os.Getenv("VERIF_CRASH_LOG"); p != "" {
+		f, err := os.OpenFile(p, os.O_WRONLY|os.O_APPEND|os.O_CREATE, 0644)
+		if err == nil {
+			c.logf = f
+		}
+	}
+	if s := os.Getenv("VERIF_CRASH"); s != "" {
+		parts := strings.Split(s, ":")
+		if len(parts) >= 2 {
+			k, err := strconv.ParseInt(parts[1], 10, 64)
+			if err == nil && k > 0 {
+				c.name = parts[0]
+				c.k = k
+			}
+			if len(parts) >= 3 {
+				ms, _ := strconv.ParseInt(parts[2], 10, 64)
+				c.delay = time.Duration(ms) * time.Millisecond
+			}
+		}
+	}
+	if c.logf != nil || c.name != "" {
+		atomic.StoreInt32(&c.enabled, 1)
+	}
+}
+
+// VerifCrashPoint records that the named point was reached and kills the process if it is the selected one.
+func VerifCrashPoint(name string, args ...uint64) {
+	c := &verifCrash
+	c.once.Do(verifCrashInit)
+	if atomic.LoadInt32(&c.enabled) == 0 {
+		return
+	}
+	c.mu.Lock()
+	c.hits[name]++
+	n := c.hits[name]
+	if c.logf != nil {
+		b := make([]byte, 0, 64)
+		b = append(b, name...)
+		for _, a := range args {
+			b = append(b, ' ')
+			b = strconv.AppendUint(b, a, 10)
+		}
+		b = append(b, '\n')
+		c.logf.Write(b)
+	}
+	kill := c.name == name && c.k == n
+	c.mu.Unlock()
+	if !kill {
+		return
+	}
+	if c.delay > 0 {
+		time.Sleep(c.delay)
+	}
+	c.mu.Lock()
+	if c.logf != nil {
+		c.logf.Write([]byte("KILL " + name + " " + strconv.FormatInt(n, 10) + "\n"))
+	}
+	syscall.Kill(os.Getpid(), syscall.SIGKILL)
+	// SIGKILL is not synchronous for the sender: never return to the caller
+	for {
+		time.Sleep(time.Hour)
+	}
+}
